@@ -120,6 +120,8 @@ def gen_cases(rng, tier):
         nonlocal n
         n += 1
         cid = "z%d" % n
+        if file_mtime is None:
+            file_mtime = 1000000             # always explicit: the handler's size heuristic looks at the file's own mtime, which the model takes as a parameter
         cases.append(Case(cid, handler, epoch, data, nlink=nlink, mtime=file_mtime, tags=tags))
         meta[cid] = members
 
